@@ -191,3 +191,51 @@ def run_truncated(R, P, rule):
         R.ob(rule, "zif_open on every prefix of four synthetic files (%d images): refused while a table is cut, loaded once the tables are "
              "complete, and no byte outside the image is read" % n, True)
     return n
+
+
+def run_badtypes(R, P, rule):
+    """a transition that names a type the file does not have (its index is the number of types, or 255): the file must be refused --
+    the index is used on the offsets table by every lookup"""
+    tu = P.tu("libdut_a-tzraw.o")
+    fz = tu.func("zif_open")
+    if fz is None or getattr(fz, "body", None) is None:
+        raise AnalysisBroken("%s: zif_open vanished" % rule)
+    R.saw(fz)
+    n = 0
+    bad = []
+    try:
+        for trs, ofs in (TABLES[3], TABLES[1]):
+            for version in (1, 2):
+                for pos in (0, len(trs) // 2, len(trs) - 1):
+                    for wrong in (len(ofs), 255):
+                        t2 = [(s_, wrong if i == pos else t_) for i, (s_, t_) in enumerate(trs)]
+                        img = list(image(t2, ofs, version))
+
+                        def _malloc(sz):
+                            fr = {"cell": {"data": CPtr([0] * 64, 0)}}
+                            return Ptr(fr, "cell", None)
+
+                        def _fstat(fd, st, L=len(img)):
+                            st.env[st.d] = {"st_size": L}
+                            return 0
+                        calls = dict(LIBC)
+                        calls.update({"coord_zone": lambda f: 0, "__open_zif": lambda f: 3, "fstat": _fstat, "close": lambda fd: 0,
+                                      "mmap": lambda a, ln, pr, fl_, fd, off, img=img: CPtr(img, 0), "munmap": lambda m, ln: 0,
+                                      "malloc": _malloc, "free": lambda p_: 0})
+                        n += 1
+                        try:
+                            z = fold.Folder(fz, calls=calls, inline=True, max_steps=400000).run([fold.cstr("Synthetic/Zone")])
+                        except fold.Abort as e:
+                            bad.append((version, pos, wrong, "makes the loader stop (%s)" % e))
+                            continue
+                        if isinstance(z, Ptr):
+                            bad.append((version, pos, wrong, "is loaded"))
+    except NotConst as e:
+        raise AnalysisBroken("%s: zif_open left the foldable fragment (%s)" % (rule, e))
+    if bad:
+        v, pos, wrong, what = bad[0]
+        R.finding(rule, fz, "zone files with a transition to a missing type", "%d of %d such files are not refused; first: a version %d file "
+                  "whose transition %d names type %d %s" % (len(bad), n, v, pos, wrong, what))
+    else:
+        R.ob(rule, "zif_open on %d synthetic files in which one transition names a type the file does not have: all refused" % n, True)
+    return n
